@@ -5,10 +5,11 @@ import (
 	"fmt"
 	"os"
 	"path/filepath"
-	"strconv"
 	"strings"
 	"testing"
 	"time"
+
+	"pgregory.net/rapid"
 
 	"verifharness/internal/ev"
 
@@ -16,9 +17,26 @@ import (
 	"verifharness/internal/ep"
 )
 
+type loadOpts struct {
+	n, downAt, upAt int
+	iobuf, connbuf  int
+	pad             int
+	paceEvery       int
+	rst             bool
+	flush, reconn   time.Duration
+}
+
+func (o loadOpts) String() string {
+	return fmt.Sprintf("%d lines (+%dB padding), outage at line %d (rst=%v), back at line %d, iobuf=%d connbuf=%d flush=%s reconn=%s pace=%d", o.n, o.pad, o.downAt, o.rst, o.upAt, o.iobuf, o.connbuf, o.flush, o.reconn, o.paceEvery)
+}
+
+var loadSeq int
+
 // outageUnderLoad: a steady paced stream while the endpoint is killed once and
 // brought back; returns (handed, distinct received, counted drops).
-func outageUnderLoad(iter int, n int) (int, int, int64, string) {
+func outageUnderLoad(o loadOpts) (int, int, int64, string) {
+	loadSeq++
+	iter := loadSeq
 	base := os.Getenv("VERIF_SCRATCH")
 	if base == "" {
 		base = os.TempDir()
@@ -28,24 +46,27 @@ func outageUnderLoad(iter int, n int) (int, int, int64, string) {
 	defer os.RemoveAll(dir)
 	e := ep.New()
 	addr := e.Addr
-	x := dh.Start(dh.Opts{Route: fmt.Sprintf("c07s%d", iter%4), Addr: addr, Spool: true, SpoolDir: dir, Flush: 5 * time.Millisecond, Reconn: 20 * time.Millisecond,
-		ConnBuf: 30000, IoBuf: 4096, SpoolBuf: 10000, SpoolSleep: time.Microsecond, Unspool: time.Microsecond})
+	x := dh.Start(dh.Opts{Route: fmt.Sprintf("c07s%d", iter%4), Addr: addr, Spool: true, SpoolDir: dir, Flush: o.flush, Reconn: o.reconn,
+		ConnBuf: o.connbuf, IoBuf: o.iobuf, SpoolBuf: 10000, SpoolSleep: time.Microsecond, Unspool: time.Microsecond})
 	if _, ok := x.WaitUp(e, 20*time.Second); !ok {
-		return 0, 0, 0, "HARNESS-ERROR: never up"
+		x.Stop(10*time.Second, e)
+		e.Close()
+		return 0, 0, 0, "HARNESS-ERROR: never up: " + x.LastDiag
 	}
 	handed := map[string]bool{}
 	var e2 *ep.Endpoint
-	for i := 0; i < n; i++ {
-		l := fmt.Sprintf("c07s.%d.l%d 1 1500000000", iter, i)
+	pad := strings.Repeat("q", o.pad)
+	for i := 0; i < o.n; i++ {
+		l := fmt.Sprintf("c07s.%d.%d.l%d%s 1 1500000000", os.Getpid(), iter, i, pad)
 		handed[l] = true
 		x.Hand([]byte(l))
-		if i == n/3 {
-			e.Down(true)
+		if i == o.downAt {
+			e.Down(o.rst)
 		}
-		if i == 2*n/3 {
+		if i == o.upAt {
 			e2 = ep.NewOn(addr)
 		}
-		if i%4 == 3 {
+		if i%o.paceEvery == o.paceEvery-1 {
 			time.Sleep(100 * time.Microsecond)
 		}
 	}
@@ -79,37 +100,39 @@ func outageUnderLoad(iter int, n int) (int, int, int64, string) {
 		}
 	}
 	drops := x.SlowConn() + x.SlowSpool()
-	done := make(chan struct{})
-	go func() { x.D.Shutdown(); close(done) }()
-	select {
-	case <-done:
-		e2.WaitPeerClosed(2 * time.Second)
-	case <-time.After(10 * time.Second):
-	}
+	x.Stop(10*time.Second, e2)
 	e2.Close()
 	return len(handed), len(got), drops, miss
 }
 
-// TestOutageUnderLoad: the outage hits while lines are being written at a steady
-// rate (found 2026-09-24: one line handed at the moment of the outage was lost
-// uncounted in ~7% of the runs before the getRedo fix).
-func TestOutageUnderLoad(t *testing.T) {
+// TestPropOutageUnderLoad: the outage hits while lines are being written at a steady rate (found 2026-09-24: one line
+// handed at the moment of the outage was lost uncounted in ~7% of the runs before the getRedo fix).  Drawn: stream
+// length, where the outage starts and ends, reset or orderly close, iobuf from smaller than a line (every write goes
+// to the socket, so a dying connection fails inside Write) to larger than the whole burst (it fails in a flush),
+// connbuf, flush and reconnect periods, pacing, line length.
+func TestPropOutageUnderLoad(t *testing.T) {
 	rec := ev.Get("outage_under_load")
-	iters := 12
-	if ev.Tier() == "thorough" {
-		iters = 150
-	}
-	shard, _ := strconv.Atoi(os.Getenv("VERIF_SHARD"))
-	for it := 0; it < iters; it++ {
-		n := []int{3000, 1500, 6000}[it%3]
-		h, g, d, miss := outageUnderLoad(shard*1000+it, n)
+	rapid.Check(t, func(t *rapid.T) {
+		o := loadOpts{n: rapid.SampledFrom([]int{1500, 3000, 6000}).Draw(t, "n")}
+		o.downAt = o.n * rapid.IntRange(10, 45).Draw(t, "downAtPct") / 100
+		o.upAt = o.n * rapid.IntRange(55, 90).Draw(t, "upAtPct") / 100
+		o.iobuf = rapid.SampledFrom([]int{8, 16, 64, 256, 4096, 65536}).Draw(t, "iobuf")
+		o.connbuf = rapid.SampledFrom([]int{100, 1000, 30000}).Draw(t, "connbuf")
+		o.pad = rapid.SampledFrom([]int{0, 0, 40, 200}).Draw(t, "pad")
+		o.paceEvery = rapid.SampledFrom([]int{2, 4, 16}).Draw(t, "paceEvery")
+		o.rst = rapid.Bool().Draw(t, "rst")
+		o.flush = time.Duration(rapid.SampledFrom([]int{1, 5, 50}).Draw(t, "flushMs")) * time.Millisecond
+		o.reconn = time.Duration(rapid.SampledFrom([]int{10, 20, 100}).Draw(t, "reconnMs")) * time.Millisecond
+		h, g, d, miss := outageUnderLoad(o)
 		if strings.HasPrefix(miss, "HARNESS-ERROR") {
 			t.Fatalf("%s", miss)
 		}
 		lost := int64(h-g) - d
 		if lost > 0 {
-			t.Fatalf("outage under load (iteration %d): %d lines handed, %d received after the endpoint came back, %d drops counted: %d lines lost uncounted, e.g. %s", it, h, g, d, lost, miss)
+			t.Fatalf("outage under load (%s): %d lines handed, %d received after the endpoint came back, %d drops counted: %d lines lost uncounted, e.g. %s", o, h, g, d, lost, miss)
 		}
-		rec.Case(fmt.Sprintf("shard %d iteration %d: %d lines, outage at line %d, back at line %d -> received %d, counted drops %d", shard, it, n, n/3, 2*n/3, g, d), true)
-	}
+		lineLen := 30 + o.pad
+		rec.Case(fmt.Sprintf("%s -> received %d, counted drops %d", o, g, d), true, fmt.Sprintf("iobuf<line=%v", o.iobuf < lineLen), fmt.Sprintf("rst=%v", o.rst), fmt.Sprintf("drops>0=%v", d > 0))
+		rec.Num("lines_handed", int64(h))
+	})
 }
